@@ -12,6 +12,9 @@ EXPLANATION = ('(1) Drop for SpawnedTask calls JoinHandle::abort on every path; 
                'JoinSet into the returned stream (def-use reachability), so dropping the stream aborts the tasks. (5) Every operator / '
                'data source that declares SchedulingType::Cooperative has, in the call tree of execute/open, an accepted yield source '
                '(cooperative()/make_cooperative() wrap, yield_now, a tokio channel operation) or is a frozen constant/one-shot stream. '
+               '(6) In every driver loop that relies on tokio::task::yield_now (RepartitionExec::pull_from_input), no iteration that did work '
+               '(called a workspace function) can return to the loop head without passing the branch that guards the yield (CFG rule on '
+               'dominators and natural loops: no cycle through the loop header contains a work call and avoids the gate). '
                'Bounded time and per-drop-point behaviour are not decided.')
 ASSUMPTIONS = ['resolved callee names identify the spawn family', 'tokio channel send/recv participate in tokio coop budgeting']
 
@@ -57,6 +60,57 @@ def spawn_census(ctx, facts, allowed_prefix, rule='who-may-spawn'):
                      key='%s|%s|%s' % (rule, c, callee))
     return bad, len(set(sites))
 
+
+
+def yield_gate(ctx, f, yield_fn, work_prefixes, rule):
+    """For every function that calls `yield_fn` inside a loop: let G be the branch that guards the yield (nearest dominating
+    switch) and H the header of the innermost loop containing G.  No block that calls a work function (a workspace function,
+    metrics excluded) may lie on a cycle through H that avoids G — otherwise an endless, always-ready input lets the loop spin
+    without ever reaching the yield, and an abort requested by dropping the task is never observed."""
+    import cfg
+    n = 0
+    for d in sorted(set(f.callers.get(yield_fn, []))):
+        for i in range(len(f.fn_index.get(d, []))):
+            rec = f.fn(d, i)
+            if 'bb' not in rec:
+                continue
+            sc = cfg.succs(rec)
+            dom, preds = cfg.dominators(sc)
+            loops = cfg.natural_loops(sc, dom, preds)
+            ys = [k for k, b in enumerate(rec['bb']) if cfg.callee(b) == yield_fn and not b.get('cu') and k in dom]
+            for y in ys:
+                sw = [x for x in dom[y] if rec['bb'][x]['t'][0] == 'switch']
+                inl = [h for h, body in loops.items() if y in body]
+                if not inl:
+                    continue          # a yield outside any loop is not a loop heuristic
+                n += 1
+                ctx.analysed_fns.add(d)
+                if not sw:
+                    # unconditional yield inside the loop: every cycle through its block is fine; treat the yield block as the gate
+                    gate = y
+                else:
+                    gate = max(sw, key=lambda x: len(dom[x]))
+                cont = [h for h, body in loops.items() if gate in body]
+                if not cont:
+                    gate = y
+                    cont = inl
+                H = min(cont, key=lambda h: len(loops[h]))
+                bad = []
+                fromH = cfg.reachable(sc, H, removed=[gate])
+                for w in sorted(loops[H]):
+                    c = cfg.callee(rec['bb'][w]) or ''
+                    if not c.startswith(work_prefixes) or '::metrics::' in c or c == yield_fn:
+                        continue
+                    if w in fromH and H in cfg.reachable(sc, w, removed=[gate]):
+                        bad.append((c, rec['bb'][w]['t'][5] if len(rec['bb'][w]['t']) > 5 else 0))
+                if bad:
+                    ctx.fail(rule, d, ctx.loc(rec), 'an iteration of the driver loop that calls %s (line %s) can return to the loop head without passing the '
+                             'yield countdown at line %s: over an endless, always-ready input the task never yields and a drop/abort is never '
+                             'observed' % (bad[0][0].rsplit('::', 2)[-2] + '::' + bad[0][0].rsplit('::', 1)[-1], bad[0][1],
+                                           rec['bb'][y]['t'][5] if len(rec['bb'][y]['t']) > 5 else '?'), key='%s|%s' % (rule, d))
+                else:
+                    ctx.ok(rule, d, sample={'fn': d, 'loop_header_bb': H, 'gate_bb': gate, 'blocks_in_loop': len(loops[H])})
+    return n
 
 def run(ctx):
     f = ctx.facts
@@ -141,6 +195,9 @@ def run(ctx):
                      '(cooperative wrap, yield_now, tokio channel): EnsureCooperative will trust the declaration and a timeout/cancel may never fire',
                      key='cooperative-yields|' + owner)
     ctx.floor('cooperative-yields', 'types declaring Cooperative', n, 13)
+    # (6) the yield heuristic of a spawned driver loop is reached by every iteration that did work
+    ny = yield_gate(ctx, f, 'tokio::task::yield_now::yield_now', ('datafusion_', '<datafusion_'), 'yield-gate')
+    ctx.floor('yield-gate', 'driver loops that rely on yield_now', ny, 1)
     # selftest
     import common
     st = ctx.st
@@ -148,3 +205,7 @@ def run(ctx):
     probe.known = []
     b, _ = spawn_census(probe, st, 'no_such_crate::', rule='st')
     ctx.selftest('who-may-spawn reports std::thread::spawn in the selftest crate', b > 0)
+    yield_gate(probe, st, 'dfscan_selftest::spawny::yield_now', ('dfscan_selftest::',), 'st-yield')
+    keys = [v['key'] for v in probe.viol if v['key'].startswith('st-yield|')]
+    ctx.selftest('yield-gate reports a driver loop whose working iteration can skip the yield countdown (bad_driver), accepts good_driver',
+                 any('bad_driver' in k for k in keys) and not any('good_driver' in k for k in keys))
